@@ -62,9 +62,85 @@ def main(ctx):
     ctx.samples.append({"trace_event_nodes": events[0]["nodes"][:3]})
 
     binary_level(ctx, thorough)
+    command_level(ctx, thorough)
     ctx.assumptions += ["a pure data race is reproduced statistically (barrier gate before the increment, star data set): a miss is possible, a false alarm is not",
                         "sequences over a,c (model) / a,c,g,t (traces); distance 1 only for exactness, distance>1 and ratio only relationally (binary level)"]
     return ctx.finish(rule="case = data set (sequences, counts) x ratio x workers x input order; race rounds counted separately")
+
+
+def command_level(ctx, thorough):
+    """what the obiclean COMMAND writes (status and weight per sample) against Clean.tla: the command decides by
+    itself when the ratio filter runs and how the samples are split; one event per (run, sample), judged by CleanTrace"""
+    bindir = ctx.build_cmds(["obiclean"])
+    rng = ctx.rng
+    d = ctx.path("cleancmd")
+    os.makedirs(d, exist_ok=True)
+
+    def sub(s, i, c=None):
+        c = c or rng.choice([x for x in "acgt" if x != s[i]])
+        return s[:i] + c + s[i + 1:]
+    samples = {}
+    # (1) a variant lighter than its two fathers by count but heavier by weight (centre of a star of its own)
+    core = "".join(rng.choice("acgt") for _ in range(24))
+    s_ = core
+    f1, f2 = sub(core, 2), sub(core, 20)
+    inv = {f1: 11, f2: 12, s_: 10}                 # weights: s = 35, f1 = 11 + 35*11/23, f2 = 12 + 35*12/23
+    for i in range(5, 10):
+        inv[sub(core, i)] = 5
+    samples["inv"] = inv
+    # (2..) random mutation families, counts with ties and gaps; a sample with a single sequence; an empty-handed one
+    for k in range(6 if thorough else 3):
+        fam = {}
+        for _ in range(2):
+            root = "".join(rng.choice("acgt") for _ in range(20))
+            vs = [root]
+            for _ in range(rng.randint(4, 9)):
+                p_ = rng.choice(vs)
+                vs.append(sub(p_, rng.randrange(len(p_))))
+            for v in vs:
+                fam[v] = rng.choice([1, 1, 2, 3, 10, 40, 40])
+        samples["fam%d" % k] = fam
+    samples["lonely"] = {"".join(rng.choice("acgt") for _ in range(20)): 7}
+    allseq = sorted({s for m in samples.values() for s in m})
+    ids = {s: "c%d" % (i + 1) for i, s in enumerate(allseq)}
+    fn = os.path.join(d, "in.fa")
+    with open(fn, "w") as f:
+        for s in allseq:
+            ms = {n: m[s] for n, m in samples.items() if s in m}
+            f.write(">%s {\"count\":%d,\"merged_sample\":%s}\n%s\n" % (ids[s], sum(ms.values()), json.dumps(ms), s))
+    jobs, tags = [], []
+    for extra, ratio in (([], [1, 1]), (["-r", "0.5"], [1, 2]), (["-r", "1.0"], [1, 1])):
+        for cpu in (1, 4):
+            jobs.append({"argv": [os.path.join(bindir, "obiclean"), "--max-cpu", str(cpu), "-s", "sample"] + extra + [fn]})
+            tags.append((extra, ratio, cpu))
+    res = ctx.run_many(jobs, timeout=300)
+    evs = []
+    for (extra, ratio, cpu), r in zip(tags, res):
+        if r["rc"] != 0:
+            raise vlib.Inconclusive("obiclean failed: " + r["err"][-500:])
+        ann = {}
+        for line in r["out"].decode().split("\n"):
+            if line.startswith(">"):
+                name, _, rest = line[1:].partition(" ")
+                ann[name] = json.loads(rest[:rest.rindex("}") + 1])
+        for n, m in sorted(samples.items()):
+            seqs = sorted(m)
+            e = {"kind": "cmd", "argv": "obiclean --max-cpu %d -s sample %s" % (cpu, " ".join(extra)), "sample": n,
+                 "seqs": [list(s) for s in seqs], "counts": [m[s] for s in seqs], "ratio": ratio, "status": [], "weight": []}
+            for s in seqs:
+                a = ann.get(ids[s], {})
+                e["status"].append(str((a.get("obiclean_status") or {}).get(n, "missing")))
+                e["weight"].append(int((a.get("obiclean_weight") or {}).get(n, -1)))
+            evs.append(e)
+    tr = ctx.path("cmdtrace.ndjson")
+    vlib.write_ndjson(tr, evs)
+    events, rejects = ctx.trace_validate("CleanTrace", "CleanTrace.cfg", tr, timeout=1500)
+    for r in rejects:
+        ev = events[r["l"] - 1]
+        ctx.violation("C13.cmd." + r["why"], "sample=%s %s" % (ev["sample"], ev["argv"].split("sample", 1)[1].strip() or "default"),
+                      "%s, sample %s (%d sequences): statuses %s weights %s rejected by CleanTrace" %
+                      (ev["argv"], ev["sample"], len(ev["seqs"]), ev["status"], ev["weight"]), ev)
+    ctx.extra["command_sample_events"] = len(evs)
 
 
 def binary_level(ctx, thorough):
